@@ -29,8 +29,8 @@
    `in_fragment` = in_fragment1 || in_fragment2; fragment_correct holds on both.  On everything the generators of the checks
    produce, in_fragment2 holds wherever in_fragment1 does (measured, not a theorem).
    NOT proved: a step expression of a from loop that contains calls (the step is a call-free expression over locals and over
-   captured data variables that no assignment / colliding counter in the body shadows); a named counter with the name of a
-   captured variable when the upper bound contains calls; the VALUE of a function that returns no value on one path (such a
+   captured data variables that no assignment / colliding counter in the body shadows); an upper bound with calls that
+   MENTIONS the name of the loop's own counter (the known finding "upper bound evaluated after the counter start"); the VALUE of a function that returns no value on one path (such a
    function may return data on other paths and be called in statement position; its result cannot be printed or used as an
    operand).
    Those are covered by the T1/T2/T3 correspondences on every run.
@@ -171,6 +171,8 @@ Check C01_nv_loops_program.
 Check C01_nv_bounds_program.
 (* a function that returns data on one path and no value on another, called in statement position *)
 Check C01_nv_maybe_value_program.
+(* a named counter that has the name of a captured variable, with a call in the upper bound *)
+Check C01_nv_shadowing_counter_program.
 (* a write through a captured variable alone is inside (fragment 2) *)
 Example C01_nv_modify_in_fragment :
   in_fragment nvp [SAssign [120%N] (EInt 1); SAssign [102%N] (EFn [] [SModify [120%N] (EInt 2); SReturn (Some (EVar [120%N]))]); SPrint (ECall (EVar [102%N]) [])] = true.
